@@ -124,6 +124,7 @@ def kb_trunc_fp(E, j, d):
     SFloat.__init__(x, z3.fpDiv(RNE, z3.fpSignedToFP(RNE, kb, f64), z3.FPVal(float(10 ** j), f64)), E)
     x.k, x.j = SInt(z3.BV2Int(kb, True), E), j           # the decimal it prints as (used only by repr())
     E.fp_int_as_float = True
+    E.fresh_checks = True
     with _patch():
         t = XL.trunc(x, d)
     if isinstance(t, SRat):                              # decimal implementation: compare exactly
